@@ -23,6 +23,7 @@ EXPLANATION = (
     "file has sr.ns entries and is written with the read's bounds; (D4) the fan-out runs my_function(i, n) for i in range(n) with "
     "the same n as n_jobs. Byte identity across worker counts and equality with in-memory destriping are NOT decided."
     ' (as built) sync provenance follows views of a single per-batch read; the mute may multiply the voltage traces inside the concatenation; the kept range may be held in a slice object built from is_first / is_last flags; one seek shared by all workers is evaluated for worker 0 and worker i.'
+    " (D1 as built) the batch loop is modelled as a schedule (start, stride, bound) whether written as `while True` with a break or as `for first_s in range(start, stop, stride)`; the bound must be max_s - 2*TAPER with max_s = ns for the worker that the fan-out's own count designates as last; seeks are keyed by the file a handle was opened on."
 )
 ASSUMPTIONS = [
     "joblib.Parallel runs each delayed call exactly once (model table); workers write disjoint or identical bytes at the decided offsets",
